@@ -466,6 +466,17 @@ Proof.
   apply andb_true_iff in H. apply H.
 Qed.
 
+(** the evaluator used by the correspondence computes [y_emit] *)
+Lemma flat_map_map_pair {A B C} (c : A -> B) (g : A * B -> list C) l :
+  flat_map g (map (fun d => (d, c d)) l) = flat_map (fun d => g (d, c d)) l.
+Proof. induction l as [|x l IH]; [reflexivity|]. cbn. now rewrite IH. Qed.
+
+Lemma y_emit_fast_eq p : y_emit_fast p = y_emit p.
+Proof.
+  unfold y_emit_fast, y_emit, y_rows, y_contribs, vals_of, typs_of, wraps_of, wrapped_of, y_vals, y_typs, y_wraps, y_wrapped.
+  rewrite !flat_map_map_pair. reflexivity.
+Qed.
+
 (* ================================================================== *)
 (** * Interface wrappers *)
 
